@@ -139,7 +139,7 @@ def run(ctx):
             kw["penalty"] = 0.5
         ctx.count("grid_cases")
         one(ctx, mods, np, s1, s2, kw, 0)
-    N = 300 if ctx.quick else 7000
+    N = ctx.scale(3500, 40000)
     for _ in range(N):
         r, c = rng.randint(1, 10), rng.randint(1, 10)
         if rng.random() < 0.3:
@@ -154,7 +154,7 @@ def run(ctx):
         ctx.count("random_cases")
         one(ctx, mods, np, s1, s2, kw, nd)
     # dtw.warp: warped series = per-column means along a valid path
-    M = 60 if ctx.quick else 1500
+    M = ctx.scale(600, 6000)
     for _ in range(M):
         r, c = rng.randint(1, 9), rng.randint(1, 9)
         s1, s2 = np.array(gen.series(rng, r, "dyadic")), np.array(gen.series(rng, c, "dyadic"))
